@@ -83,6 +83,7 @@ var (
 	imports   multiFlag // pkgpath:oldimport=newimport
 	adds      multiFlag // pkgpath=file
 	noMapSort = flag.Bool("nomapsort", false, "leave range-over-map alone")
+	mapSort   = flag.Bool("mapsort", false, "with -noconc: still canonicalise range-over-map (harness-controlled order through mc.ReverseMapOrder)")
 	noConc    = flag.Bool("noconc", false, "do not re-target concurrency constructs; only apply -import/-add (for sequential Engine-2 parts that need a substituted import or an in-package accessor)")
 )
 
@@ -764,6 +765,14 @@ func main() {
 			if *noConc {
 				g.errs = nil
 				g.selRepl = map[*ast.SelectorExpr]string{}
+				if *mapSort {
+					astutil.Apply(f, nil, func(c *astutil.Cursor) bool {
+						if x, ok := c.Node().(*ast.RangeStmt); ok && g.rangeMap[x] {
+							g.rewriteRangeMap(x)
+						}
+						return true
+					})
+				}
 			} else {
 				g.rewrite(f)
 			}
